@@ -87,6 +87,12 @@ func genRuleSet(c *Ctx, nMethods int) []rrule {
 	var rules []rrule
 	for i, n := 0, 1+c.Rng.Intn(5); i < n; i++ {
 		r := rrule{method: c.Rng.Intn(nMethods), primary: rbind{kind: kindPool[c.Rng.Intn(len(kindPool))], t: genTmpl(c)}}
+		if c.Rng.Intn(5) == 0 {
+			r.method += nMethods // the method of the same short name in the other service
+		}
+		if len(rules) > 0 && c.Rng.Intn(8) == 0 { // exactly an earlier binding again (same or other method)
+			r.primary = rules[c.Rng.Intn(len(rules))].primary
+		}
 		if len(rules) > 0 && c.Rng.Intn(3) == 0 { // share a prefix with an earlier rule
 			prev := rules[c.Rng.Intn(len(rules))].primary.t
 			k := 1 + c.Rng.Intn(len(prev.segs))
